@@ -9,18 +9,18 @@ use async_graphql_parser::types::ExecutableDocument;
 use futures_util::stream::{self, BoxStream, FuturesOrdered, StreamExt};
 
 use crate::{
-    BatchRequest, BatchResponse, CacheControl, ContextBase, EmptyMutation, EmptySubscription,
-    Executor, InputType, Name, ObjectType, OutputType, QueryEnv, Request, Response, ServerError,
-    ServerResult, SubscriptionType, Value,
+    BatchRequest, BatchResponse, CacheControl, Context, ContextBase, ContextSelectionSet,
+    EmptySubscription, Executor, InputType, Name, ObjectType, OutputType, QueryEnv, Request,
+    Response, ServerError, ServerResult, SubscriptionType, Value,
     context::{Data, QueryEnvInner},
     custom_directive::CustomDirectiveFactory,
     extensions::{ExtensionFactory, Extensions},
     parser::{
         Positioned, parse_query,
-        types::{Directive, DocumentOperations, OperationType, Selection, SelectionSet},
+        types::{Directive, DocumentOperations, Field, OperationType, Selection, SelectionSet},
     },
     registry::{Registry, SDLExportOptions},
-    resolver_utils::{resolve_container, resolve_container_serial},
+    resolver_utils::{ContainerType, resolve_container, resolve_container_serial},
     subscription::collect_subscription_streams,
     types::QueryRoot,
     validation::{ValidationMode, check_rules},
@@ -36,6 +36,37 @@ pub enum IntrospectionMode {
     Enabled,
     /// Disables introspection
     Disabled,
+}
+
+/// Stands in for the mutation root in introspection-only mode: it has the
+/// root's type name (for `__typename` and type conditions), and none of its
+/// fields is resolved.
+struct IntrospectionOnlyRoot<T>(std::marker::PhantomData<T>);
+
+#[cfg_attr(feature = "boxed-trait", async_trait::async_trait)]
+impl<T: ObjectType> ContainerType for IntrospectionOnlyRoot<T> {
+    async fn resolve_field(&self, _ctx: &Context<'_>) -> ServerResult<Option<Value>> {
+        Ok(None)
+    }
+}
+
+#[cfg_attr(feature = "boxed-trait", async_trait::async_trait)]
+impl<T: ObjectType> OutputType for IntrospectionOnlyRoot<T> {
+    fn type_name() -> std::borrow::Cow<'static, str> {
+        T::type_name()
+    }
+
+    fn create_type_info(registry: &mut Registry) -> String {
+        T::create_type_info(registry)
+    }
+
+    async fn resolve(
+        &self,
+        ctx: &ContextSelectionSet<'_>,
+        _field: &Positioned<Field>,
+    ) -> ServerResult<Value> {
+        resolve_container(ctx, self).await
+    }
 }
 
 /// Schema builder
@@ -492,7 +523,11 @@ where
                 if self.0.env.registry.introspection_mode == IntrospectionMode::IntrospectionOnly
                     || env.introspection_mode == IntrospectionMode::IntrospectionOnly
                 {
-                    resolve_container_serial(&ctx, &EmptyMutation).await
+                    resolve_container_serial(
+                        &ctx,
+                        &IntrospectionOnlyRoot::<Mutation>(std::marker::PhantomData),
+                    )
+                    .await
                 } else {
                     resolve_container_serial(&ctx, &self.0.mutation).await
                 }
